@@ -117,8 +117,9 @@ def _run_shard(cid, shard, rundir, case_timeout, results, crashes, timeouts):
                                    "history_size=4:log_path=" + base + ".san")
         budget = case_timeout * len(remaining) + 120
         t0 = time.time()
+        prefix = [a.replace("{base}", base) for a in (shard.extra_env or {}).get("VERIF_CMD_PREFIX", "").split("\x1f") if a]
         try:
-            p = subprocess.run([sys.executable, "-m", "vlib.worker", cid, cf, of, mf, str(case_timeout)],
+            p = subprocess.run(prefix + [sys.executable, "-m", "vlib.worker", cid, cf, of, mf, str(case_timeout)],
                                cwd=rundir, env=env, capture_output=True, text=True, timeout=budget)
             rc, err = p.returncode, (p.stderr or "")[-6000:]
         except subprocess.TimeoutExpired as e:
@@ -131,6 +132,14 @@ def _run_shard(cid, shard, rundir, case_timeout, results, crashes, timeouts):
                         done.append(json.loads(line))
                     except Exception:
                         pass
+        post = getattr(load_check(cid), "post_shard", None)
+        if post is not None:
+            try:
+                extra = post(shard.variant, shard.extra_env or {}, base)
+                if extra:
+                    done.append({"_proc_obs": extra, "_i": 10 ** 9})
+            except Exception as e:  # a parser bug must not hide verdicts
+                done.append({"_proc_obs": {"post_shard_error": 1}, "_i": 10 ** 9})
         results.extend(done)
         ndone = sum(1 for d in done if "_proc_obs" not in d)
         if ndone >= len(remaining) and rc == 0:
